@@ -10,8 +10,11 @@ EXTENDS FzfAnsi, Json, IOUtils
 TraceLog == ndJsonDeserialize(IOEnv.TRACE)
 Shards == 16
 VARIABLE l
-JInit == l \in 1..(IF Len(TraceLog) < Shards THEN Len(TraceLog) ELSE Shards)
-JNext == l + Shards <= Len(TraceLog) /\ l' = l + Shards
+(* l = 0 is a dummy root: TLC evaluates initial states on the JVM's main thread, whose stack is not enlarged by -Xss; *)
+(* the deep recursion over long lines has to happen in the worker threads.                                           *)
+JInit == l = 0
+JNext == IF l = 0 THEN l' \in 1..(IF Len(TraceLog) < Shards THEN Len(TraceLog) ELSE Shards)
+         ELSE l + Shards <= Len(TraceLog) /\ l' = l + Shards
 
 LineOk(p, g, sp) == /\ g.text = p.text
                     /\ WellFormedSpans(sp, Len(g.text))
@@ -35,5 +38,5 @@ Verdict(r) == IF r.kind = "table" THEN TableOk(r) \/ PrintT(<<"MISMATCH", l>>)
               ELSE /\ PrintT(<<"MISMATCH", l>>)
                    /\ LET hit == SelectSeq([i \in 1..Len(DevSets) |-> i], LAMBDA i : ExplainedBy(r, Corners \cup DevSets[i]))
                       IN hit # <<>> => PrintT(<<"DEV", l, DevNames[hit[1]]>>)
-JInv == Verdict(TraceLog[l])
+JInv == l = 0 \/ Verdict(TraceLog[l])
 ================================================================================
